@@ -36,7 +36,7 @@ def setup_worker():
     _st["Template"] = Template
 
 
-CTX = {"x": "X", "y": "Y", "flag1": True, "flag0": False}
+CTX = {"x": "X", "y": "Y", "flag1": True, "flag0": False, "zctx": "ZC"}
 
 
 class G:
@@ -94,7 +94,7 @@ class G:
                     args.append(("kw", name, val()))
                 else:
                     args.append(("pos", val()))
-            elif kind == "default" and r.random() < 0.5:
+            elif kind in ("default", "cdefault") and r.random() < 0.5:
                 args.append(("kw", name, val()))
             elif kind == "varargs" and not ns_style and r.random() < 0.5 and all(a[0] == "pos" for a in args):
                 if not any(k2 == "default" for _, k2, _ in sig):
@@ -132,6 +132,11 @@ class G:
     def make_def(self, idx, ndefs, nested_level=0):
         r = self.r
         d = {"name": "d%d" % idx if nested_level == 0 else "n%d_%d" % (idx, self.uid()), "sig": self.sig()}
+        if nested_level == 1 and r.random() < 0.35:
+            # a nested def whose default reads a context variable that the enclosing def mentions nowhere else (the
+            # default is evaluated in the enclosing def when the nested def is defined)
+            at = next((i for i, (_, k, _) in enumerate(d["sig"]) if k in ("varargs", "kwonly", "kwargs")), len(d["sig"]))
+            d["sig"].insert(at, ("cz", "cdefault", None))
         d["buffered"] = r.random() < 0.25
         d["filter"] = "fz" if r.random() < 0.25 else None
         d["decorator"] = (not d["buffered"]) and nested_level == 0 and r.random() < 0.15
@@ -148,16 +153,16 @@ class G:
     def fill_bodies(self, defs):
         for i, d in enumerate(defs):
             later = defs[i + 1:]
-            avail = [p for p, k, _ in d["sig"] if k in ("pos", "default", "kwonly")] + ["x", "y"]
+            avail = [p for p, k, _ in d["sig"] if k in ("pos", "default", "cdefault", "kwonly")] + ["x", "y"]
             for nd in d["nested"]:
-                nd["body"] = self.nodes(1, later, avail + [p for p, k, _ in nd["sig"] if k in ("pos", "default", "kwonly")], None, nd, simple=True)
+                nd["body"] = self.nodes(1, later, avail + [p for p, k, _ in nd["sig"] if k in ("pos", "default", "cdefault", "kwonly")], None, nd, simple=True)
             d["body"] = self.nodes(1, later, avail, d, d)
 
     def nodes(self, depth, callable_defs, avail, in_def, owner, simple=False):
         r = self.r
         out = [("T", "[%s:" % (owner["name"] if owner else "body"))]
         for p, k, _ in (owner["sig"] if owner else []):
-            if k in ("pos", "default", "kwonly"):
+            if k in ("pos", "default", "cdefault", "kwonly"):
                 out += [("V", p), ("T", ",")]
             elif k == "varargs":
                 out += [("V", p), ("T", ",")]
@@ -313,7 +318,7 @@ def has_bare_star_shape(doc):
             # one with a default
             seen_default = False
             for _, k, dv in d["sig"]:
-                if k in ("default",) or (k == "kwonly" and dv is not None):
+                if k in ("default", "cdefault") or (k == "kwonly" and dv is not None):
                     seen_default = True
                 elif k in ("pos", "kwonly") and seen_default:
                     return True
